@@ -295,9 +295,9 @@ func genC02(cs *CaseSet, rng *Rng, tier string, dir string) {
 	}
 	type upJob struct {
 		stream, data, trailer []byte
-		script       []int
-		name, kind   string
-		conn         net.Conn
+		script                []int
+		name, kind            string
+		conn                  net.Conn
 	}
 	admin, _ := env.NewClient("guest", hotline.AccessBitmap{255, 255, 255, 255, 255, 255, 255, 255}, "10.3.0.1:1")
 	env.StartDrain()
